@@ -5,6 +5,7 @@ import (
 	"go/ast"
 	"go/constant"
 	"go/types"
+	"os"
 	"strings"
 
 	"golang.org/x/tools/go/types/typeutil"
@@ -522,12 +523,27 @@ func init() {
 		st.Assume(Not(App(SBool, "select", al, fok)))
 		st.heap["$ghost:alloc"] = App(al.Sort, "store", al, fok, True)
 		log := fv.ghostLog(st, "fx")
-		e := fv.w.StructMk(fv.w.elemOf[log.Sort], []Term{IntLit(1), c.args[0]})
+		// os.OpenFile without O_TRUNC keeps the old bytes beyond what is written: a different effect (spec_OpenKeep = 5)
+		kind := IntLit(1)
+		if c.fn != nil && c.fn.Name() == "OpenFile" && len(c.call.Args) >= 2 {
+			kind = fv.fresh("openkind", SInt)
+			st.Assume(Or(eqT(kind, IntLit(1)), eqT(kind, IntLit(5))))
+			if tv, ok := env.info.Types[c.call.Args[1]]; ok && tv.Value != nil {
+				if fl, exact := constant.Int64Val(constant.ToInt(tv.Value)); exact {
+					if fl&int64(os.O_TRUNC) != 0 {
+						kind = IntLit(1)
+					} else {
+						kind = IntLit(5)
+					}
+				}
+			}
+		}
+		e := fv.w.StructMk(fv.w.elemOf[log.Sort], []Term{kind, c.args[0]})
 		st.heap["$ghost:fx"] = Ite(ok, fv.w.SeqCat(log, fv.w.SeqUnit(log.Sort, e)), log)
 		fv.writeField(st, fok, "$file:path", "Seq_Int", c.args[0])
 		return []Term{Ite(ok, fok, Null), err}
 	}
-	reg("os.OpenFile", "os.OpenFile(name, O_TRUNC|O_CREATE..): on success appends Open(name) to the effect log and returns a fresh handle; on error has NO effect on the file (assumed)", openLike)
+	reg("os.OpenFile", "os.OpenFile(name, flags): on success appends Open(name) (flags contain O_TRUNC) or OpenKeep(name) (they do not: old bytes survive) to the effect log and returns a fresh handle; on error has NO effect on the file (assumed)", openLike)
 	reg("os.Create", "os.Create(name): like os.OpenFile with O_TRUNC|O_CREATE", openLike)
 	externEffects["os.OpenFile"] = "fx"
 	externEffects["os.Create"] = "fx"
@@ -541,6 +557,21 @@ func init() {
 	})
 	reg("strconv.Itoa", "strconv.Itoa: deterministic (uninterpreted decimal rendering)", func(fv *FuncVerifier, st *State, env *Env, c *CallCtx) []Term {
 		return []Term{fv.uf("itoa", "Seq_Int", "", c.args[0])}
+	})
+	reg("go/types.NewPackage", "types.NewPackage(path, name): a non-nil *types.Package p with p.Path() == path (modelled as a deterministic function of its arguments; identity of the package object is not relied on)", func(fv *FuncVerifier, st *State, env *Env, c *CallCtx) []Term {
+		r := fv.uf("types_newpackage", SRef, "", c.args[0], c.args[1])
+		fv.w.UFun("ext_Pgo_types_Package_Path_0_Ref", []Sort{SRef}, "Seq_Int", "")
+		st.Assume(Not(App(SBool, "=", r, Null)))
+		st.Assume(App(SBool, "=", App("Seq_Int", "ext_Pgo_types_Package_Path_0_Ref", r), c.args[0]))
+		return []Term{r}
+	})
+	reg("(*strings.Builder).Grow", "strings.Builder.Grow(n) panics if n < 0 (requires n >= 0); no visible effect otherwise", func(fv *FuncVerifier, st *State, env *Env, c *CallCtx) []Term {
+		fv.oblige(st, env, "S", "extern-requires", Le(IntLit(0), c.args[0]), c.call.Lparen, "strings.Builder.Grow: n >= 0 (negative count panics)")
+		return nil
+	})
+	reg("(*bytes.Buffer).Grow", "bytes.Buffer.Grow(n) panics if n < 0 (requires n >= 0); no visible effect otherwise", func(fv *FuncVerifier, st *State, env *Env, c *CallCtx) []Term {
+		fv.oblige(st, env, "S", "extern-requires", Le(IntLit(0), c.args[0]), c.call.Lparen, "bytes.Buffer.Grow: n >= 0 (negative count panics)")
+		return nil
 	})
 	reg("path.Join", "path.Join: deterministic function of its elements", func(fv *FuncVerifier, st *State, env *Env, c *CallCtx) []Term {
 		return []Term{fv.uf("path_join", "Seq_Int", "", fv.w.SeqLit(fv.w.SeqSort("Seq_Int"), c.args))}
